@@ -11,6 +11,7 @@ import (
 	"strings"
 	"sync"
 	"time"
+	"unsafe"
 
 	connect "github.com/bufbuild/connect-go"
 )
@@ -37,7 +38,35 @@ type poolRecorder struct {
 	events []string
 }
 
+// pendingReads: memory regions a transport's body Read has been asked to fill and has not
+// filled yet. A buffer that goes back to the pool while such a read is pending will be written
+// to by that read when it belongs to somebody else.
+var pendingReads struct {
+	mu      sync.Mutex
+	regions map[*blockingBody][2]uintptr
+	hits    []string
+}
+
+func region(p []byte) [2]uintptr {
+	p = p[:cap(p)]
+	if len(p) == 0 {
+		return [2]uintptr{}
+	}
+	start := uintptr(unsafe.Pointer(&p[0]))
+	return [2]uintptr{start, start + uintptr(len(p))}
+}
+
 func (p *poolRecorder) observe(put bool, b *bytes.Buffer) {
+	if put {
+		r := region(b.Bytes())
+		pendingReads.mu.Lock()
+		for body, pr := range pendingReads.regions {
+			if r[0] < pr[1] && pr[0] < r[1] {
+				pendingReads.hits = append(pendingReads.hits, body.name)
+			}
+		}
+		pendingReads.mu.Unlock()
+	}
 	p.mu.Lock()
 	id, ok := p.ids[b]
 	if !ok {
@@ -372,7 +401,144 @@ func streamConc(c *Ctx) {
 		c.Emit("pool.trace "+strings.Join(cevents[i:end], " "), verdict, true)
 	}
 	sharedValueProbes(c)
+	pendingReadProbe(c)
 	c.Note("%d goroutines x %d calls over %d client configurations; %d buffer-pool and %d codec-pool events recorded", G, K, len(sets), len(events), len(cevents))
+}
+
+// stampIcpt calls f with the request headers of every streaming client call before its first Send.
+type stampIcpt struct{ f func(http.Header) }
+
+func (s stampIcpt) WrapUnary(next connect.UnaryFunc) connect.UnaryFunc { return next }
+func (s stampIcpt) WrapStreamingClient(next connect.StreamingClientFunc) connect.StreamingClientFunc {
+	return func(ctx context.Context, spec connect.Spec) connect.StreamingClientConn {
+		conn := next(ctx, spec)
+		return &stampConn{StreamingClientConn: conn, f: s.f}
+	}
+}
+func (s stampIcpt) WrapStreamingHandler(next connect.StreamingHandlerFunc) connect.StreamingHandlerFunc {
+	return next
+}
+
+type stampConn struct {
+	connect.StreamingClientConn
+	f    func(http.Header)
+	done bool
+}
+
+func (s *stampConn) Send(m any) error {
+	if !s.done {
+		s.done = true
+		s.f(s.RequestHeader())
+	}
+	return s.StreamingClientConn.Send(m)
+}
+
+// headerCapture records the headers of every request and answers with an empty 200.
+type headerCapture struct {
+	mu   sync.Mutex
+	seen *[]http.Header
+}
+
+func (h *headerCapture) Do(req *http.Request) (*http.Response, error) {
+	h.mu.Lock()
+	*h.seen = append(*h.seen, req.Header.Clone())
+	h.mu.Unlock()
+	return (&staticClient{status: 200, header: http.Header{"Content-Type": {req.Header.Get("Content-Type")}}}).Do(req)
+}
+
+// blockingBody delivers `first`, then blocks inside Read until released, then delivers `late`.
+type blockingBody struct {
+	name    string
+	first   []byte
+	late    []byte
+	gate    chan struct{}
+	blocked chan struct{}
+	once    sync.Once
+}
+
+func (b *blockingBody) Read(p []byte) (int, error) {
+	if len(b.first) > 0 {
+		n := copy(p, b.first)
+		b.first = b.first[n:]
+		return n, nil
+	}
+	pendingReads.mu.Lock()
+	if pendingReads.regions == nil {
+		pendingReads.regions = map[*blockingBody][2]uintptr{}
+	}
+	pendingReads.regions[b] = region(p)
+	pendingReads.mu.Unlock()
+	b.once.Do(func() { close(b.blocked) })
+	<-b.gate
+	pendingReads.mu.Lock()
+	delete(pendingReads.regions, b)
+	pendingReads.mu.Unlock()
+	n := copy(p, b.late)
+	b.late = b.late[n:]
+	if len(b.late) == 0 {
+		return n, io.EOF
+	}
+	return n, nil
+}
+func (b *blockingBody) Close() error { return nil }
+
+// pendingReadProbe (needs the pool observer of streamConc): a call is cancelled while the
+// transport is still filling the call's buffer (a body Read that does not return on
+// cancellation - the HTTPClient interface does not promise that it does). Whatever the call
+// then reports, its buffer must not be back in the pool while that read is pending: the next
+// call on the client would get a buffer somebody else still writes to.
+func pendingReadProbe(c *Ctx) {
+	for _, proto := range []string{"connect", "grpc", "grpcweb"} {
+		name := "pending-read/" + proto
+		payload := bytes.Repeat([]byte{7}, 64)
+		full := frame(0, payload)
+		body := &blockingBody{name: name, first: append([]byte{}, full[:9]...), late: append([]byte{}, full[9:]...), gate: make(chan struct{}), blocked: make(chan struct{})}
+		opts := []connect.ClientOption{connect.WithCodec(rawCodec{"raw"})}
+		if proto == "grpc" {
+			opts = append(opts, connect.WithGRPC())
+		} else if proto == "grpcweb" {
+			opts = append(opts, connect.WithGRPCWeb())
+		}
+		bc := &bodyClient{status: 200, header: http.Header{"Content-Type": {ctFor(proto, "server", "raw")}}, body: body}
+		cl := connect.NewClient[[]byte, []byte](bc, "http://h/s/m", opts...)
+		ctx, cancel := context.WithCancel(context.Background())
+		done := make(chan struct{})
+		go func() {
+			defer close(done)
+			st, err := cl.CallServerStream(ctx, connect.NewRequest(&[]byte{1}))
+			if err != nil {
+				return
+			}
+			st.Receive()
+			_ = st.Close()
+		}()
+		select {
+		case <-body.blocked:
+		case <-time.After(5 * time.Second):
+		}
+		cancel()
+		select {
+		case <-done:
+		case <-time.After(300 * time.Millisecond):
+		}
+		close(body.gate)
+		select {
+		case <-done:
+		case <-time.After(5 * time.Second):
+		}
+		c.Count("conc-pending-read-probe")
+		pendingReads.mu.Lock()
+		hit := false
+		for _, h := range pendingReads.hits {
+			if h == name {
+				hit = true
+			}
+		}
+		pendingReads.mu.Unlock()
+		if hit {
+			c.Fail("conc-buffer-recycled-under-read", proto+" server stream: context cancelled while the transport's body Read (64-byte message, 4 bytes delivered) is still pending", "the call's buffer went back to the pool before that Read returned", "the pending Read writes into a buffer the next call on this client will be given")
+		}
+	}
 }
 
 // sharedValueProbes (oracle only, sequential - no timing involved): values the *application*
@@ -459,6 +625,62 @@ func sharedValueProbes(c *Ctx) {
 			if got != "ok" {
 				c.Fail("conc-crosstalk-shared-error", desc, got, "per-call trailers leaked through an error value the application shares between calls")
 			}
+		}
+	}
+	// (c) one Request value (three values under one key) used for several server-streaming
+	// calls; an interceptor stamps each call's own request headers with the call's id: the
+	// stamp of one call never shows up in - or overwrites - another call's headers
+	for _, proto := range []string{"connect", "grpc", "grpcweb"} {
+		desc := proto + " server-streaming calls sharing one Request value (X-Trace: a, b, c); an interceptor adds the call id to each call's request headers"
+		got := safely(func() string {
+			var held []http.Header
+			var wire []http.Header
+			hc := &headerCapture{seen: &wire}
+			n := 0
+			stamp := stampIcpt{func(h http.Header) {
+				n++
+				h.Add("X-Trace", fmt.Sprintf("call-%d", n))
+				held = append(held, h)
+			}}
+			copts := []connect.ClientOption{connect.WithCodec(rawCodec{"raw"}), connect.WithInterceptors(stamp)}
+			if proto == "grpc" {
+				copts = append(copts, connect.WithGRPC())
+			} else if proto == "grpcweb" {
+				copts = append(copts, connect.WithGRPCWeb())
+			}
+			cl := connect.NewClient[[]byte, []byte](hc, "http://h/s/m", copts...)
+			req := connect.NewRequest(&[]byte{1})
+			for _, v := range []string{"a", "b", "c"} {
+				req.Header().Add("X-Trace", v)
+			}
+			for i := 0; i < 3; i++ {
+				st, err := cl.CallServerStream(context.Background(), req)
+				if err == nil {
+					for st.Receive() {
+					}
+					_ = st.Close()
+				}
+			}
+			if len(held) != 3 || len(wire) != 3 {
+				return fmt.Sprintf("%d calls stamped, %d requests made", len(held), len(wire))
+			}
+			for i := 0; i < 3; i++ {
+				want := fmt.Sprintf("a,b,c,call-%d", i+1)
+				if g := strings.Join(held[i].Values("X-Trace"), ","); g != want {
+					return fmt.Sprintf("call %d's own header map now says X-Trace: %s (want %s)", i+1, g, want)
+				}
+				if g := strings.Join(wire[i].Values("X-Trace"), ","); g != want {
+					return fmt.Sprintf("call %d went out with X-Trace: %s (want %s)", i+1, g, want)
+				}
+			}
+			if g := strings.Join(req.Header().Values("X-Trace"), ","); g != "a,b,c" {
+				return "the shared Request's own header changed: " + g
+			}
+			return "ok"
+		})
+		c.Count("conc-shared-request-headers")
+		if got != "ok" {
+			c.Fail("conc-crosstalk-shared-request", desc, got, "header values of one call leaked into another call's headers")
 		}
 	}
 	// (b)
